@@ -68,6 +68,7 @@ structure HistAcc where
   ts : List (Key × String) := []
   outsI : List String := []
   outsS : List String := []
+  others : List String := []       -- per login: sha2 fast path, HandleUser(caching_sha2), ValidateHash (Impl model)
   undetermined : Bool := false
   regions : List String := []      -- one per difference between Impl and Spec
 
@@ -76,6 +77,12 @@ def histStep (acc : HistAcc) : Ev → HistAcc
     { acc with esI := stepI acc.esI o, esS := stepS acc.esS o, ts := taintStep acc.esI acc.ts o }
   | .login u h salt resp =>
     let oI := loginStr (loginI sha1 acc.esI u h salt resp)
+    let other :=
+      if dupKey acc.esI u h then "crash,crash,crash"
+      else outStr (sha2Fast true (acctsOf acc.esI) u h []) ++ "," ++
+        b01 (handleUser true (acctsOf acc.esI) "caching_sha2_password" u h) ++ "," ++
+        outStr (authNative sha1 true (acctsOf acc.esI) u h salt resp)
+    let acc := { acc with others := other :: acc.others }
     match loginS sha1 acc.esS u h salt resp with
     | none => { acc with outsI := oI :: acc.outsI, outsS := "?" :: acc.outsS, undetermined := true }
     | some o =>
@@ -98,8 +105,10 @@ def histAnswer (es0 : List Entry) (evs : List Ev) : String :=
     if (withKey acc.esI k).map (·.a) = (withKey acc.esS k).map (·.a) then none
     else some ((taintOf acc.ts k).getD "-"))
   let regions := acc.regions ++ tblRegions
-  let impl := ";".intercalate acc.outsI.reverse ++ "|" ++ tableStr acc.esI
-  let spec := ";".intercalate acc.outsS.reverse ++ "|" ++ tableStr acc.esS
+  -- (the third part has no Spec of its own: the other entry points are compared with the Impl model only)
+  let oth := "|" ++ ";".intercalate acc.others.reverse
+  let impl := ";".intercalate acc.outsI.reverse ++ "|" ++ tableStr acc.esI ++ oth
+  let spec := ";".intercalate acc.outsS.reverse ++ "|" ++ tableStr acc.esS ++ oth
   if acc.undetermined then answer impl "?"
   else if impl = spec then answer impl
   else
